@@ -47,11 +47,17 @@ class AbsWatch(Monitor):
                         self.abs_keys.add((prog.pstr(a.point(0, prog)), a.task,
                                            a.output))
         self.seen_after = {}
+        self.tick = 0            # check() calls, across incarnations
+        self.done_at = {}        # abs output -> tick first seen recorded
+        self.pooled_at = {}      # instance -> tick first seen pooled
 
     def check(self, h):
         if not self.abs_keys:
             return
         schd = h.schd
+        self.tick += 1
+        for i_ in schd.pool.get_tasks():
+            self.pooled_at.setdefault(i_.identity, self.tick)
         path = schd.workflow_db_mgr.pri_path
         done = set()
         try:
@@ -70,6 +76,8 @@ class AbsWatch(Monitor):
                     done.add((c, n, trig))
         if not done:
             return
+        for kk_ in done:
+            self.done_at.setdefault(kk_, self.tick)
         for i in schd.pool.get_tasks():
             for p in i.state.prerequisites:
                 for k, v in p.items():
@@ -110,6 +118,12 @@ class AbsWatch(Monitor):
                                     m.startswith('Not respawning ') and
                                     m.split()[2].endswith('/' + nm)
                                     for _l, m in h.log.records)
+                            # ... and this instance was already pooled when
+                            # the output completed (one spawned afterwards is
+                            # satisfied from abs_outputs_done)
+                            earlier_done = earlier_done and (
+                                self.pooled_at.get(i.identity, 0) <=
+                                self.done_at.get(kk, 0))
                             if earlier_done and not stale:
                                 # the first (listed) child of the absolute
                                 # output had already run and left the pool
@@ -181,6 +195,25 @@ def run(params):
                     if a.is_abs() and cust and rng2.random() < 0.5:
                         a.output = rng2.choice(cust)
                         aw.custom_abs = True
+        if how == 'stop':
+            # two different outputs of one parent instance referenced by
+            # absolute triggers (each is recorded, and restored on restart,
+            # on its own)
+            import random
+            r3 = random.Random(repr(rng2.getstate()[1][:4]))
+            groups = {}
+            for s_ in prog.sections:
+                for e, _tg in s_.lines:
+                    for a in atoms(e):
+                        if a.is_abs():
+                            groups.setdefault(
+                                (a.task, a.point(0, prog)), []).append(a)
+            for _k, al in sorted(groups.items(), key=lambda kv: str(kv[0])):
+                if len(al) >= 2 and len({a.output for a in al}) == 1 and (
+                        r3.random() < 0.7):
+                    al[r3.randrange(len(al))].output = (
+                        'started' if al[0].output != 'started'
+                        else 'succeeded')
 
     knobs = dict(KNOBS)
     if how == 'stop':
